@@ -367,17 +367,58 @@ def leaf_supported(x, raw_l: str, nums: list) -> bool:
     return True
 
 
+TRUTHY = {"true", "1", "yes", "on", "t", "y", "1.0"}
+FALSY = {"false", "0", "no", "off", "f", "n", "0.0"}
+
+
+def field_value_texts(raw: str, name: str) -> list:
+    """the value tokens written next to `name :` anywhere in the raw text (lower-cased, unquoted)"""
+    out = []
+    for m in real_re.finditer(r'["\']?\b' + real_re.escape(name) + r'["\']?\s*:\s*', raw):
+        mm = real_re.match(r"""("[^"]*"|'[^']*'|[^,}\]\s]+)""", raw[m.end():m.end() + 60])
+        if mm:
+            out.append(mm.group(1).strip("\"'").strip().lower())
+    return out
+
+
+def scalar_supported_by(x, v: str) -> bool:
+    """does the value token `v` written in the text say `x`?"""
+    if isinstance(x, bool):
+        return v in (TRUTHY if x else FALSY)
+    try:
+        fv = float(v)
+        if (math.isnan(fv) and isinstance(x, float) and math.isnan(x)) or fv == x:
+            return True
+    except (ValueError, OverflowError):
+        pass
+    return (x == 1 and v in TRUTHY) or (x == 0 and v in FALSY)
+
+
 def unsupported_leaves(structure, S, raw: str) -> list:
     raw_l = raw.lower()
     nums = NUM_RE.findall(raw)
     bad = []
-    dump = structure.model_dump()
-    for name, f in S.model_fields.items():
-        v = dump.get(name)
-        if not f.is_required() and v == f.default:
-            continue
-        if not leaf_supported(v, raw_l, nums):
-            bad.append((name, v))
+
+    def walk(dump, model, path):
+        for name, f in model.model_fields.items():
+            v = dump.get(name)
+            if not f.is_required() and v == f.default:
+                continue                                   # a schema default, not a claim about the text
+            ann = f.annotation
+            if isinstance(ann, type) and hasattr(ann, "model_fields") and isinstance(v, dict):
+                walk(v, ann, path + name + ".")
+                continue
+            if isinstance(v, (bool, int, float)):
+                # a scalar field: the text written next to its key must say this value
+                texts = field_value_texts(raw, name)
+                if texts:
+                    if not any(scalar_supported_by(v, t) for t in texts):
+                        bad.append((path + name, v, texts[:3]))
+                    continue
+            if not leaf_supported(v, raw_l, nums):
+                bad.append((path + name, v))
+
+    walk(structure.model_dump(), S, "")
     return bad
 
 
@@ -616,8 +657,9 @@ class C11(Prop):
                 c = r.confidence
                 if not (isinstance(c, (int, float)) and 0.0 <= c <= 1.0):
                     out.append(Violation("confidence_in_unit_interval", "[0,1]", repr(c), idx))
-                elif r.valid and c == 1.0 and r.strategy_used != FS.STRICT:
-                    out.append(Violation("confidence_one_only_for_strict", "< 1.0", f"{c} via {r.strategy_used}", idx))
+                elif c == 1.0 and not (r.valid and r.strategy_used == FS.STRICT):
+                    out.append(Violation("confidence_one_only_for_strict", "< 1.0",
+                                         f"{c} valid={r.valid} via {r.strategy_used}", idx))
                 elif r.valid and r.strategy_used == FS.STRICT and c != 1.0:
                     out.append(Violation("strict_has_full_confidence", "1.0", repr(c), idx))
             # "the plain and enhanced folds agree on validity and structure"
@@ -729,6 +771,8 @@ class C11(Prop):
             lambda s: s + "}",
             lambda s: "[" + s + "]",
             lambda s: "{\"wrapper\": " + s + "}",
+            lambda s: rng.choice(['{"other": 1} ', '{"f0": []} then ', '[1, 2] ', '```json\n{"f0": {}}\n``` or ']) + s,
+            lambda s: s + rng.choice([' {"other": 1}', ' [3]', ' ```\n{}\n```']),
         ]
         for _ in range(rng.choice([0, 1, 1, 1, 2, 2, 3])):
             s = rng.choice(ops)(s)
@@ -767,7 +811,7 @@ class C11(Prop):
             s = real_json.dumps(inst, indent=2)
         else:
             s = real_json.dumps(inst, ensure_ascii=False)
-        if x < 0.045:
+        if x < 0.055:
             return rng.choice(["{", "[", '{"a":']) * rng.choice([990, 2000]) + s      # deep nesting
         return self.corrupt(rng, s)
 
@@ -810,7 +854,15 @@ class C11(Prop):
                 ctor_cases.append({"lines": [f"schema {spec}", f"new {ctor}", f"fold {hexs(raw)} {call}",
                                              f"foldx {hexs(raw)} {call}", "stats", "resetstats", "stats"],
                                    "note": "constructor x call strategy glue"})
-        return [{"name": "all 66 strategy lists (None, [], every ordered subset) x representative raw texts", "cases": cases},
+        edge_cases = []
+        for raw in ["[" * 2000 + '{"a": 1}', '{"a":' * 2000 + "1", "42", '""', "null", "[1, 2]", '{"a": 1}' + "]" * 3,
+                    '```json\n42\n``` {"a": "x"}', "{'a': 1, 'b': NaN}", '{"a": 1, "b": undefined}']:
+            for st in ["none", "s", "e", "l", "r", "ls"]:
+                edge_cases.append({"lines": [f"schema {spec}", "new none", f"foldx {hexs(raw)} {st}",
+                                             f"fold {hexs(raw)} {st}", "stats"],
+                                   "note": "deep nesting / scalar documents / literals"})
+        return [{"name": "deep nesting, scalar and null documents x single strategies", "cases": edge_cases},
+                {"name": "all 66 strategy lists (None, [], every ordered subset) x representative raw texts", "cases": cases},
                 {"name": "every str.isspace code point and its neighbours around clean JSON", "cases": ws_cases},
                 {"name": "constructor strategies x call strategies (`or` glue)", "cases": ctor_cases}]
 
